@@ -311,8 +311,8 @@ fn check_loop(h: &Hist) -> CheckResult {
 
 pub fn run(ctx: &Ctx, rep: &Report) {
     run_exhaustive(ctx, rep, ctx.tier.pick(5, 7));
-    run_prop(ctx, rep, "random", ctx.tier.pick(20_000, 600_000), &|| hist_random(), &check_hist);
-    run_prop(ctx, rep, "producer-loop", ctx.tier.pick(10_000, 200_000), &|| hist_loop(), &check_loop);
+    run_prop(ctx, rep, "random", ctx.tier.pick(20_000, 4_000_000), &|| hist_random(), &check_hist);
+    run_prop(ctx, rep, "producer-loop", ctx.tier.pick(10_000, 1_500_000), &|| hist_loop(), &check_loop);
 }
 
 pub fn replay(sub: &str, case: &Value) -> Result<(), Fail> {
